@@ -42,13 +42,27 @@ type FuncContract struct {
 	Trusted    bool // contract assumed, body not verified
 	NoThrow    bool
 	Pure       bool
+	Logical    bool    // deterministic function of its arguments (no heap): an uninterpreted function in VCs
 	PureIf     *Clause // the function writes nothing visible to callers when this holds at entry
 	NoSafety   bool // do not emit safety obligations (function only used as a callee contract)
+	Calls      []*CallSpec
 	Stable     []string // slices whose backing arrays are assumed not to be written during the call
 	Split      []string // case-split expressions (each obligation proved per case)
 	Timeout    int
 	File       string
 	Line       int
+}
+
+// CallSpec: "calls F(args) when cond" – on every normal return where cond held at entry,
+// F has been called with these arguments (a ghost flag set at matching call sites);
+// "nocall F(args) when cond" is the negation.
+type CallSpec struct {
+	Callee   string
+	Args     []string
+	As       string // optional ghost name for the result of the (last) matching call
+	When     string
+	Negative bool
+	Clause   *Clause
 }
 
 // SpecFunc is a specification function: either a macro over contract expressions or a
@@ -81,6 +95,7 @@ type ContractSet struct {
 	Specs   map[string]*SpecFunc
 	SMTRaw  []string // raw SMT-LIB commands (declare-fun, axioms) – listed as assumptions
 	Lemmas  []*Lemma
+	Tables  []*TableFact
 	Files   []string
 	Axioms  []string
 }
@@ -177,6 +192,16 @@ func (cs *ContractSet) parseFile(path, pkg string) error {
 			cs.SMTRaw = append(cs.SMTRaw, rest)
 			lastText = &cs.SMTRaw[len(cs.SMTRaw)-1]
 			cur = nil
+		case "table":
+			// table[P] global.field = function
+			parts := strings.SplitN(rest, "=", 2)
+			lhs := strings.Split(strings.TrimSpace(parts[0]), ".")
+			if len(parts) != 2 || len(lhs) != 2 {
+				return fmt.Errorf("%s:%d: table needs global.field = function", path, line)
+			}
+			cs.Tables = append(cs.Tables, &TableFact{Global: lhs[0], Field: lhs[1], Func: strings.TrimSpace(parts[1]), Props: props, File: path, Line: line, Pkg: pkg})
+			lastText = nil
+			cur = nil
 		case "lemma", "sanity":
 			lm := &Lemma{Kind: kw, Props: props, Pkg: pkg, File: path, Line: line}
 			if kw == "lemma" {
@@ -226,7 +251,7 @@ func (cs *ContractSet) parseFile(path, pkg string) error {
 				cur.Asserts = append(cur.Asserts, cl)
 			case "modifies":
 				cur.HasModifies = true
-				for _, x := range strings.Split(rest, ",") {
+				for _, x := range splitTop(rest, ",") {
 					if x = strings.TrimSpace(x); x != "" && x != "nothing" {
 						cur.Modifies = append(cur.Modifies, x)
 					}
@@ -240,10 +265,22 @@ func (cs *ContractSet) parseFile(path, pkg string) error {
 				cur.NoThrow = true
 			case "pure":
 				cur.Pure = true
+			case "logical":
+				cur.Logical = true
+				cur.Pure = true
 			case "pure_if":
 				cur.PureIf = cl
 			case "nosafety":
 				cur.NoSafety = true
+			case "calls", "nocall":
+				cs, err := parseCallSpec(rest, pkg)
+				if err != nil {
+					return fmt.Errorf("%s:%d: %v", path, line, err)
+				}
+				cs.Negative = kw == "nocall"
+				cs.Clause = cl
+				cur.Calls = append(cur.Calls, cs)
+				lastText = nil
 			case "stable":
 				cur.Stable = append(cur.Stable, rest)
 				lastText = nil
@@ -288,4 +325,48 @@ func parseSpec(s string, raw bool) (*SpecFunc, error) {
 		sf.Params = append(sf.Params, specParam{parts[0], strings.TrimSpace(parts[1])})
 	}
 	return sf, nil
+}
+
+func parseCallSpec(s, pkg string) (*CallSpec, error) {
+	when := ""
+	if i := strings.Index(s, " when "); i >= 0 {
+		when = strings.TrimSpace(s[i+6:])
+		s = strings.TrimSpace(s[:i])
+	}
+	as := ""
+	if i := strings.LastIndex(s, ") as "); i >= 0 {
+		as = strings.TrimSpace(s[i+5:])
+		s = strings.TrimSpace(s[:i+1])
+	}
+	// callee key: up to the last top-level "(...)" group
+	if !strings.HasSuffix(s, ")") {
+		return nil, fmt.Errorf("calls clause needs F(args)")
+	}
+	depth := 0
+	open := -1
+	for i := len(s) - 1; i >= 0; i-- {
+		if s[i] == ')' {
+			depth++
+		} else if s[i] == '(' {
+			depth--
+			if depth == 0 {
+				open = i
+				break
+			}
+		}
+	}
+	if open <= 0 {
+		return nil, fmt.Errorf("calls clause needs F(args)")
+	}
+	callee := strings.TrimSpace(s[:open])
+	if strings.HasPrefix(callee, "(") || !strings.Contains(callee, ".") {
+		callee = pkg + "." + callee
+	}
+	cs := &CallSpec{Callee: callee, When: when, As: as}
+	for _, a := range splitTop(s[open+1:len(s)-1], ",") {
+		if a = strings.TrimSpace(a); a != "" {
+			cs.Args = append(cs.Args, a)
+		}
+	}
+	return cs, nil
 }
